@@ -73,15 +73,19 @@ def accOf (b : Block) (timed : Bool) (x : Node) : List (Nat × Kind) :=
 def orderedB (fuel : Nat) (es : List Edge) : List (Node × Instr) → Bool
   | [] => true
   | p :: rest =>
+    let stableFrom := reachFrom es isStable p.1
+    let timedFrom := reachFrom es isScheduled p.1
     (rest.all fun q => (frameAcc p.2).all fun a => (frameAcc q.2).all fun c =>
       !(a.1 = c.1 && (a.2.isWrite || c.2.isWrite)) ||
-      (reachB es isStable fuel p.1 q.1 &&
-        (!(p.2.scheduled && q.2.scheduled) || reachB es isScheduled fuel p.1 q.1)))
+      (stableFrom.contains q.1 &&
+        (!(p.2.scheduled && q.2.scheduled) || timedFrom.contains q.1)))
     && orderedB fuel es rest
 
-def fromStartB (fuel : Nat) (b : Block) (es : List Edge) : Bool :=
+def fromStartB (_fuel : Nat) (b : Block) (es : List Edge) : Bool :=
+  let stableFrom := reachFrom es isStable .start
+  let timedFrom := reachFrom es isScheduled .start
   b.items.all fun p => (frameAcc p.2).isEmpty ||
-    (reachB es isStable fuel .start p.1 && (!p.2.scheduled || reachB es isScheduled fuel .start p.1))
+    (stableFrom.contains p.1 && (!p.2.scheduled || timedFrom.contains p.1))
 
 def frameJustB (b : Block) (timed : Bool) (e : Edge) : Bool :=
   (accOf b timed e.dst).any fun c =>
